@@ -119,7 +119,7 @@ class TagCache:
     def __setitem__(self, k, v):
         if isinstance(v, dict) and "verif_run" not in v:
             self._rec.runs += 1
-            v = dict(v, verif_run=self._rec.runs)
+            v = dict(v, verif_run=self._rec.runs, verif_update=True)
             self._rec.last_update_con = v
         self._inner[k] = v
 
@@ -175,7 +175,8 @@ def replay_sequence(run, ct, rng, pool, seq, cfg):
     from cotengra import reusable
     rec = Recorder()
     kind = cfg["kind"]
-    base_cls = ct.ReusableHyperOptimizer if kind == "hyper" else ct.ReusableRandomGreedyOptimizer
+    base_cls = {"hyper": ct.ReusableHyperOptimizer, "hypercomp": ct.ReusableHyperCompressedOptimizer,
+                "rgreedy": ct.ReusableRandomGreedyOptimizer}[kind]
     cls = instrument(base_cls, rec)
     directory = tempfile.mkdtemp(prefix="c14_", dir=tla.workdir("c14_dirs")) if cfg["disk"] else None
     desc = {"pool": [p.to_json() for p in pool], "seq": seq, "cfg": cfg}
@@ -189,6 +190,10 @@ def replay_sequence(run, ct, rng, pool, seq, cfg):
         if kind == "hyper":
             o = cls(methods=["greedy"], max_repeats=2, optlib="random", parallel=False, minimize=cfg.get("minimize", "flops"),
                     slicing_opts={"target_slices": 2}, **kw)
+        elif kind == "hypercomp":
+            # the compressed variant, bond cap given explicitly (it is part of the objective the entries are scored with)
+            o = cls(chi=cfg.get("chi"), methods=["greedy-compressed"], max_repeats=2, optlib="random", parallel=False,
+                    minimize=cfg.get("cminimize", "peak-compressed"), **kw)
         else:
             o = cls(max_repeats=2, seed=rng.randrange(1000), parallel=False, **kw)
         o._cache = TagCache(o._cache, rec)
@@ -233,8 +238,17 @@ def replay_sequence(run, ct, rng, pool, seq, cfg):
                     utree = observe.build_tree(ct, net, nets.tree_to_ssa(nets.rand_tree(rng, net.N), net.N, rng))
                 utree.set_default_objective(opt.minimize)
                 akw = {} if mode == "default" else {"overwrite": {"no": False, "yes": True, "improved": "improved"}[mode]}
+                rec.last_update_con = None
                 with core.watchdog(120):
                     opt.update_from_tree(utree, **akw)
+                wrote = rec.last_update_con
+                if wrote is not None:
+                    # the entry written is the tree handed in: its path, its sliced indices, its own score
+                    if tuple(map(tuple, wrote["path"])) != tuple(map(tuple, utree.get_path())) \
+                            or tuple(wrote["sliced_inds"]) != tuple(utree.sliced_inds) \
+                            or abs(wrote["score"] - utree.get_score()) > 1e-9 * max(1, abs(utree.get_score())):
+                        _viol(f"update_from_tree stored an entry (score {wrote['score']:.6f}) that is not the tree handed in (score "
+                              f"{utree.get_score():.6f}) for {net.kind} eq={net.eq()}", desc, tags=tags | {"update-entry-differs-from-tree"})
                 h = opt.hash_query(net.c_inputs(), net.c_output(), net.c_sizes())[0]
                 mc_ = opt._cache._mem_cache
                 con = mc_.get(h) or mc_.get(h if isinstance(h, tuple) else (h,))
@@ -304,14 +318,18 @@ def replay_sequence(run, ct, rng, pool, seq, cfg):
                             tuple(tree.sliced_inds) != tuple(answer["sliced_inds"]):
                         _viol(f"returned tree differs from the stored entry (path / sliced indices) for {net.kind}",
                                       desc, tags=tags | {"tree-differs-from-entry"})
-                    elif kind == "hyper":
+                    elif kind in ("hyper", "hypercomp"):
                         # the tree handed back carries the optimizer's objective: its own score is the stored score
                         try:
                             ts = tree.get_score()
                         except Exception as e:
                             ts = None
                             _viol(f"returned tree cannot be scored: {core.exc_text(e)}", desc, tags=tags | {"tree-score"})
-                        shares = sum(1 for i in range(len(pool)) if hashes[i] == hashes[q - 1])
+                        # (members that differ merely in the order of indices within a tensor / the output have the same figures)
+                        shares = 1 + sum(1 for i in range(len(pool)) if hashes[i] == hashes[q - 1]
+                                         and pool[i].kind not in ("base", "perm-within-tensors", "perm-output"))
+                        if net.kind not in ("base", "perm-within-tensors", "perm-output"):
+                            shares = sum(1 for i in range(len(pool)) if hashes[i] == hashes[q - 1])
                         if ts is not None and shares == 1 and abs(ts - answer["score"]) > 1e-9 * max(1, abs(ts)):
                             _viol(f"the returned tree's own score {ts:.6f} (objective {getattr(tree, '_default_objective', None)}) is not "
                                   f"the score {answer['score']:.6f} stored for it (optimizer built with minimize={cfg.get('minimize')}) "
@@ -319,7 +337,9 @@ def replay_sequence(run, ct, rng, pool, seq, cfg):
                 if path is not None and tuple(map(tuple, path)) != tuple(map(tuple, answer["path"])):
                     _viol(f"returned path differs from the stored path for {net.kind}", desc, tags=tags | {"path-differs"})
                 # the stored score must be a score of the tree rebuilt for THIS query
-                if kind == "hyper":
+                if kind == "hypercomp":
+                    continue    # (the compressed figures depend on the step order: judged through the returned tree's own score)
+                if kind == "hyper" or answer.get("verif_update"):
                     rebuilt.set_default_objective(opt.minimize)
                     sc = rebuilt.get_score()
                 else:
@@ -395,14 +415,15 @@ def run(run):
     results = []
     pools = [make_pool(rng) for _ in range(3 if quick else 10)]
     for seq in seqs:
-        cfg = {"kind": rng.choice(["hyper", "hyper", "rgreedy"]), "hash": rng.choice(["a", "a", "b"]),
+        cfg = {"kind": rng.choice(["hyper", "hyper", "hyper", "rgreedy", "rgreedy", "hypercomp"]), "chi": rng.choice([None, 2, 2, 3, 4]),
+               "cminimize": rng.choice(["peak-compressed", "peak-compressed", "size-compressed"]), "hash": rng.choice(["a", "a", "b"]),
                "disk": rng.random() < 0.7, "split": rng.choice([True, False, "auto"]),
                "overwrite": rng.choice(["no", "no", "yes", "improved", "improved"]),
                "cache_only_last": rng.random() < 0.3, "via_call": rng.random() < 0.4,
                "fresh_process": (not quick) or rng.random() < 0.15, "auto_after_restart": rng.random() < 0.5,
                "minimize": rng.choice(["flops", "flops", "combo", "size", "write", "combo-256"])}
         pool = rng.choice(pools)
-        if cfg["kind"] == "hyper" and rng.random() < 0.45:
+        if cfg["kind"] in ("hyper", "rgreedy") and rng.random() < 0.45:
             # answers handed in from outside (update_from_tree) with their own overwrite mode, anywhere in the sequence
             seq = list(seq)
             for _ in range(rng.choice([1, 1, 2])):
@@ -419,11 +440,67 @@ def run(run):
             continue
         results.append(r)
     judge(run, results)
+    fresh_readers(run, ct, rng, pools, quick)
     run.cov["rule"] = ("query sequences (length 3 + restarts) over a pool of 7 similar contractions, all enumerated by TLC from "
                        "Reusable.tla (quick: 90 sampled) x random configuration {hyper | random-greedy, hash a|b, directory or memory, "
                        "directory_split, overwrite, cache_only on the last query, search | __call__}; distinct by (sequence, config, pool)")
     run.assumptions += ["SHA-1 is injective on canonical forms", "restart = a new optimizer object on the same directory (a fresh "
                         "process shares nothing else with it)"]
+
+
+def fresh_readers(run, ct, rng, pools, quick):
+    """every class of reusable optimizer, every objective variant: an entry written by one object is handed back by OTHER
+    readers - a new object on the same directory, a cache_only reader, another thread of the writer - as the tree stored,
+    carrying the score stored for it"""
+    import threading
+    combos = []
+    for chi in (None, 2, 3):
+        for cm in ("peak-compressed", "size-compressed"):
+            combos.append(("hypercomp", dict(chi=chi, minimize=cm, methods=["greedy-compressed"], max_repeats=2, optlib="random",
+                                             parallel=False)))
+    for m in ("flops", "size", "write", "combo", "combo-256", "limit"):
+        combos.append(("hyper", dict(minimize=m, methods=["greedy"], max_repeats=2, optlib="random", parallel=False)))
+    if quick:
+        combos = rng.sample(combos[:6], 3) + rng.sample(combos[6:], 2)
+    classes = {"hyper": ct.ReusableHyperOptimizer, "hypercomp": ct.ReusableHyperCompressedOptimizer}
+    for kind, kw in combos:
+        pool = rng.choice(pools)
+        net = pool[0]
+        directory = tempfile.mkdtemp(prefix="c14_fr_", dir=tla.workdir("c14_dirs"))
+        d = {"net": net.to_json(), "class": kind, "options": {k: str(v) for k, v in kw.items()}}
+        run.count()
+        run.nontrivial(("fresh-readers", kind, str(kw), net.eq()))
+        try:
+            with core.watchdog(300):
+                args = (net.c_inputs(), net.c_output(), net.c_sizes())
+                o1 = classes[kind](directory=directory, **kw)
+                t1 = o1.search(*args)
+                h, missing = o1.hash_query(*args)
+                stored = o1._cache[h]
+                readers = {}
+                readers["a new object on the same directory"] = classes[kind](directory=directory, **kw).search(*args)
+                readers["a cache_only reader on the same directory"] = classes[kind](directory=directory, cache_only=True, **kw).search(*args)
+                out = {}
+                th = threading.Thread(target=lambda: out.__setitem__("t", o1.search(*args)))
+                th.start()
+                th.join()
+                readers["another thread of the writing object"] = out.get("t")
+                readers["the writing object again"] = o1.search(*args)
+            for who, t in readers.items():
+                if t is None:
+                    run.violation(f"{who} got no tree ({kind}, {kw})", d, tags={"fresh-reader", "no-tree"})
+                    continue
+                if tuple(map(tuple, t.get_path())) != tuple(map(tuple, stored["path"])) or tuple(t.sliced_inds) != tuple(stored["sliced_inds"]):
+                    run.violation(f"{who} got a tree that differs from the stored entry ({kind}, {kw}) eq={net.eq()}", d,
+                                  tags={"fresh-reader", "tree-differs-from-entry"})
+                elif abs(t.get_score() - stored["score"]) > 1e-9 * max(1, abs(stored["score"])):
+                    run.violation(f"{who} got a tree whose own score {t.get_score():.6f} is not the score {stored['score']:.6f} stored "
+                                  f"for it ({kind}, {kw}) eq={net.eq()}", d, tags={"fresh-reader", "tree-score-differs-from-stored-score"})
+        except Exception as e:
+            run.violation(f"reusable optimizer ({kind}, {kw}) raised {core.exc_text(e)} with several readers eq={net.eq()}", d,
+                          tags={"fresh-reader", "raised"})
+        finally:
+            shutil.rmtree(directory, ignore_errors=True)
 
 
 def judge(run, results):
